@@ -167,6 +167,8 @@ func (c *connection) send(conn net.Conn, connDone chan bool) {
 		default:
 			select {
 			case m = <-c.client.sendQueue: // Fetch jobs
+			case <-connDone: // connection closed while waiting for a job
+				return
 			case <-t.C:
 				if c.isClosed {
 					return
@@ -266,6 +268,11 @@ func (c *connection) recv(conn net.Conn, connDone chan bool) {
 func (c *connection) close(conn net.Conn) {
 	c.connLock.Lock()
 	defer c.connLock.Unlock()
+	if conn != nil && conn != c.conn {
+		// a connection that has already been replaced: the current one stays usable
+		_ = conn.Close()
+		return
+	}
 	c.isClosed = true
 	if conn != nil {
 		_ = conn.Close()
